@@ -246,7 +246,8 @@ PROPS["C10"] = {
 PROPS["C13"] = {
     "pkg": "c13", "level": "exploration",
     "technique": "property-based testing (rapid) of every OT layer driven directly (random, correlated, extended, additive OT, multiplication) with the defining relation of "
-                 "each layer as oracle (internal outputs read through reflection), boundary scalars and degenerate choice vectors, setup reuse, and single-field "
+                 "each layer as oracle (internal outputs read through reflection), boundary scalars and degenerate choice vectors, every batch size from 1 to 70 bytes, setup reuse (in order, answered in reverse order, and "
+                 "honest uses after a rejected altered request), and single-field "
                  "alterations of every OT message with the oracle 'error on the checking side or still the correct product'",
     "level_text": "Layer relations are checked exactly for every batch entry: chosen pad, t_j = q_j xor c_j*Delta, VChoices[j] = V_{c_j}[j], additive shares summing to c_j*alpha_k, "
                   "and share_S + share_R = alpha*beta computed with math/big. Alterations are value-level (another valid point/scalar, flipped bits) at one of 12 sites.",
@@ -579,3 +580,11 @@ PROPS["C09"] = {
         ],
     },
 }
+
+# Technique texts that were extended after the seeded-change evaluation (DESIGN section 11) are kept in
+# technique_overrides.json (full replacement texts) so that the long literals above stay as they were reviewed.
+import json as _json, os as _os
+_ov = _os.path.join(_os.path.dirname(_os.path.abspath(__file__)), "technique_overrides.json")
+if _os.path.exists(_ov):
+    for _k, _v in _json.load(open(_ov)).items():
+        PROPS[_k]["technique"] = _v
